@@ -258,7 +258,7 @@ func canonicalDump(d *art.VerifTree, withClass bool) string {
 			return
 		}
 		if n.Kind == 4 {
-			fmt.Fprintf(&sb, "%sleaf key=%x tkey=%x val=%v\n", ind, n.Key, n.TKey, n.Value)
+			fmt.Fprintf(&sb, "%sleaf key=%x tkey=%x val=%s\n", ind, n.Key, n.TKey, showValue(n.Value))
 			return
 		}
 		cls := "inner"
@@ -304,7 +304,7 @@ func takeRaw(s Subject) *rawState {
 		if n.Kind == 4 {
 			rs.recs = append(rs.recs, rawRec{leaf: true,
 				head:  fmt.Sprintf("leaf@%x key@%x=%x tkey@%x=%x", n.Addr, n.KeyPtr, n.Key, n.TKeyPtr, n.TKey),
-				value: fmt.Sprintf("%v", n.Value)})
+				value: showValue(n.Value)})
 			return
 		}
 		rs.height = max(rs.height, depth+1)
@@ -471,4 +471,18 @@ func (e *Engine) classEvent(s *slot, class int, gained bool) {
 		e.fact("cross_tree_reuse_" + className[class])
 		e.fact("cross_tree_reuse")
 	}
+}
+
+// showValue renders a stored value by content (pointer values by what they point to), so that two
+// trees holding equal values render alike.
+func showValue(v any) string {
+	switch x := v.(type) {
+	case *payload:
+		return fmt.Sprintf("ptr#%d", payloadID(x))
+	case bigVal:
+		return fmt.Sprintf("big#%d/%d/%x", payloadID(x.p), stringID(x.s), x.pad[:4])
+	case []byte:
+		return fmt.Sprintf("bytes#%d", bytesID(x))
+	}
+	return fmt.Sprintf("%v", v)
 }
